@@ -255,6 +255,17 @@ impl NtpDuration {
         (self - other).abs()
     }
 
+    /// The mean of two durations.
+    ///
+    /// Unlike `(self + other) / 2` this is exact for all inputs: the sum of two
+    /// durations can exceed the range of an `NtpDuration` (and would saturate),
+    /// but their mean never does.
+    pub(crate) const fn mean(self, other: Self) -> Self {
+        Self {
+            duration: ((self.duration as i128 + other.duration as i128) / 2) as i64,
+        }
+    }
+
     /// Get the number of seconds (first return value) and nanoseconds
     /// (second return value) representing the length of this duration.
     /// The number of nanoseconds is guaranteed to be positive and less
